@@ -41,7 +41,7 @@ from rtc.harness import Collector, pmap_chunks, stable_hash
 from spec import merge as S
 
 PROP = "C18"
-TMP_ROOT = "/tmp/rtc_c18"
+TMP_ROOT = "/tmp/rtc_c18/%d" % os.getpid()      # per run (workers are forked and inherit it); removed by run()/replay()
 MODES = S.MULTIDOC_MODES
 POLICIES = [
     {}, {"arrays": "unique"}, {"arrays": "left"}, {"arrays": "right"}, {"hashes": "left"}, {"hashes": "right"},
@@ -398,6 +398,14 @@ def work(chunk, seed, policies, channels_every):
     return col.result(internal=True, cpu_s=time.process_time() - t0)
 
 
+def _cleanup():
+    shutil.rmtree(TMP_ROOT, ignore_errors=True)
+    try:
+        os.rmdir(os.path.dirname(TMP_ROOT))
+    except OSError:
+        pass
+
+
 def run(tier="quick", seed=0, jobs=None):
     rng = random.Random(seed)
     two = variant_streams(("map", "empty"))
@@ -432,7 +440,7 @@ def run(tier="quick", seed=0, jobs=None):
                 cpu += r["cpu_s"]
             info.append({"stage": name, "stream_pairs": len(items), "cases": col.evaluations - before, "cpu_s": round(cpu, 1)})
     finally:
-        shutil.rmtree(TMP_ROOT, ignore_errors=True)
+        _cleanup()
     bounds = {
         "streams": "lengths 1..4 on both sides (right side also 0: a single multi-document file); every position is an empty document "
                    "or a position-tagged document: map = {a: [TAG], TAG: 1, last: TAG}; list = [TAG]; "
@@ -465,7 +473,7 @@ def replay(inp):
         return {"key": key, "what": what, "inputs": [inp], "observed": c05._jsonable(res["real_full"]),
                 "expected": c05._jsonable(res["expected"]), "count": 1}
     finally:
-        shutil.rmtree(TMP_ROOT, ignore_errors=True)
+        _cleanup()
 
 
 if __name__ == "__main__":
